@@ -183,6 +183,18 @@ class ElementLocator : public BaseElementLocator
         return element_addresses_begin;
     }
 
+    // Moves `source`, an element further back, to the position of element `index` whose predecessor has just been
+    // placed: the element starts at the next suitably aligned address behind it.
+    template <class Reference>
+    auto relocate_at(std::size_t index, std::byte* memory_begin, const Reference& source)
+    {
+        const auto target = ElementTraits::align_for_first_parameter(memory_begin + this->element_addresses_[index]);
+        this->element_addresses_[index] = target - memory_begin;
+        const auto end = ElementTraits::relocate_at(target, source);
+        this->element_addresses_[index + 1] = end - memory_begin;
+        return end;
+    }
+
     // Copies the elements only. The locator that is created for the new memory computes its own end of data, the
     // source (which may be const) is left untouched.
     void trivially_copy_into(std::byte* CNTGS_RESTRICT old_memory_begin,
@@ -294,6 +306,12 @@ class AllFixedSizeElementLocator : public BaseAllFixedSizeElementLocator
     {
         return ElementTraits::emplace_at_aliased(element_address(index, memory_begin), fixed_sizes,
                                                  std::forward<Args>(args)...);
+    }
+
+    template <class Reference>
+    auto relocate_at(std::size_t index, std::byte* memory_begin, const Reference& source)
+    {
+        return ElementTraits::relocate_at(element_address(index, memory_begin), source);
     }
 
     void trivially_copy_into(const std::byte* old_memory_begin, std::byte* new_memory_begin) const noexcept
